@@ -5325,6 +5325,13 @@ int64_t ExpressionEvaluator::evaluate_function_call_impl(const ASTNode *node) {
                         std::vector<int64_t> values;
                         std::vector<std::string> str_values;
 
+                        // パラメータの要素型（各要素の型範囲チェックに使う）
+                        TypeInfo param_elem_type =
+                            param->type_info >= TYPE_ARRAY_BASE
+                                ? static_cast<TypeInfo>(param->type_info -
+                                                        TYPE_ARRAY_BASE)
+                                : param->type_info;
+
                         for (const auto &element : arg->arguments) {
                             if (element->node_type ==
                                 ASTNodeType::AST_STRING_LITERAL) {
@@ -5332,6 +5339,14 @@ int64_t ExpressionEvaluator::evaluate_function_call_impl(const ASTNode *node) {
                             } else {
                                 int64_t val =
                                     evaluate_expression(element.get());
+                                // 配列宣言の初期化と同じ規則（ポインタ配列は
+                                // スキップ）
+                                if (!param->is_pointer) {
+                                    val =
+                                        interpreter_.range_checked_store_value(
+                                            param_elem_type, param->is_unsigned,
+                                            val, param->name);
+                                }
                                 values.push_back(val);
                             }
                         }
